@@ -20,4 +20,5 @@ func runC16(c *core.Ctx) {
 	c.Clause("C16.4 permission to disrupt originates only from a timeout-now")
 	h.disruptPermission("C16.4 disrupt-permission")
 	h.leaderYields("C16.4b timeout-now-voter-gated")
+	h.timeoutNowGrantsPermission("C16.5 timeout-now-permission")
 }
